@@ -1,10 +1,11 @@
 import Cardutil.Model.Card
+import Cardutil.Model.Iso8583
 /-
   C16 — masking never discloses more than the first six and last four digits.
 
   Part 1 (this file, top): the shape of `mask` for every card number of length ≥ 10 over arbitrary
-  characters and every mask character.  Part 2 (decode non-interference under PAN / PAN-PREFIX
-  configurations) is stated over the ISO8583 decoder model in `Props/C16b.lean`.
+  characters and every mask character.  Part 2 (bottom): decode non-interference under PAN / PAN-PREFIX configurations, over the
+  ISO8583 decoder model.
 -/
 namespace Cardutil.Props.C16
 
@@ -46,6 +47,52 @@ theorem C16_noninterference (p q : Text) (m : Nat) (hp : 10 ≤ p.length) (hlen 
 /-- PAN-PREFIX keeps the first nine characters only -/
 theorem C16_prefix (pan : Text) : panPrefix pan = pan.take 9 ∧ (panPrefix pan).length ≤ 9 := by
   simp [panPrefix, List.length_take]; omega
+
+/-! ### decoding under a masking configuration -/
+
+open Cardutil.Iso in
+/-- C16 (decode, PAN): for an element configured with the PAN processor, everything the decoder
+    returns for it is computed from the MASKED text: two contents that agree on length, first six
+    and last four characters decode to the same entries — no middle character can influence, hence
+    appear in, the returned dictionary -/
+theorem C16_decode_pan (env : Env) (bit : Nat) (f : FieldCfg) (raw raw' : Bytes) (t t' : Text)
+    (hproc : f.proc = .pan)
+    (hd : env.codec.decode raw = some t) (hd' : env.codec.decode raw' = some t')
+    (h10 : 10 ≤ t.length) (hlen : t.length = t'.length)
+    (h6 : t.take 6 = t'.take 6) (h4 : t.drop (t.length - 4) = t'.drop (t'.length - 4)) :
+    decodeTextField env bit f raw = decodeTextField env bit f raw' := by
+  unfold decodeTextField
+  rw [hd, hd']
+  have : transform f t = transform f t' := by
+    simp only [transform, hproc]
+    exact C16_noninterference t t' 42 h10 hlen h6 h4
+  simp only [this]
+
+open Cardutil.Iso in
+/-- C16 (decode, PAN-PREFIX): only the first nine characters can influence the result -/
+theorem C16_decode_pan_prefix (env : Env) (bit : Nat) (f : FieldCfg) (raw raw' : Bytes) (t t' : Text)
+    (hproc : f.proc = .panPrefix)
+    (hd : env.codec.decode raw = some t) (hd' : env.codec.decode raw' = some t')
+    (h9 : t.take 9 = t'.take 9) :
+    decodeTextField env bit f raw = decodeTextField env bit f raw' := by
+  unfold decodeTextField
+  rw [hd, hd']
+  have : transform f t = transform f t' := by
+    simp only [transform, hproc, panPrefix, h9]
+  simp only [this]
+
+open Cardutil.Iso in
+/-- the value stored for the element itself is the masked form / the prefix (string-typed element) -/
+theorem C16_decode_value (env : Env) (bit : Nat) (f : FieldCfg) (raw : Bytes) (t : Text)
+    (hty : f.pytype = .str) (hd : env.codec.decode raw = some t) (hproc : f.proc = .pan ∨ f.proc = .panPrefix) :
+    ∃ sub, decodeTextField env bit f raw = .ok (Dict.update [(Key.de bit, Val.str (transform f t))] sub) ∧
+      transform f t = (if f.proc = .pan then mask t 42 else panPrefix t) := by
+  unfold decodeTextField
+  rw [hd]
+  simp only [stringToPyType, hty, Outcome.catchAs, Outcome.bind]
+  rcases hproc with hp | hp
+  · refine ⟨[], by simp [derived, hp], by simp [transform, hp]⟩
+  · refine ⟨[], by simp [derived, hp], by simp [transform, hp]⟩
 
 /-- non-vacuity: a 19-digit number -/
 example : mask [52,52,52,52,53,53,53,53,54,54,54,54,55,55,55,55,56,56,56] 42 =
